@@ -276,9 +276,8 @@ def bk5(p, res):
         asserted = False
         for bi, t in f.calls():
             if (f.callee_def(t) or {}).get("n") in ("is_multiple_of",) and len(t["a"]) == 2 and t["a"][1][0] == "k" and t["a"][1][1].get("v") in (2, 4, 8, 16):
-                # the length is asserted to be a multiple of the lane count
-                if any(r[0] == "call" and (f.callee_def(f.blocks[r[1]]["t"]) or {}).get("n") == "len" for r in flow.op_roots(t["a"][0])) or True:
-                    asserted = True
+                # a quantity is asserted to be a multiple of the lane count
+                asserted = True
         if has_tail or rem or asserted:
             res.ok("BK-5", {"kernel": f.pretty, "tail": "ref fallback" if has_tail else ("remainder test" if rem else "asserted multiple")} if n % 10 == 1 else None)
         else:
